@@ -60,8 +60,8 @@ theorem history_irrelevant (m : Nat) (W : World) (S S' : PStore) (rq : Request) 
 
 /-- the signature-key vocabulary of the code (Generated/Facts.lean, regenerated from /repo) is the model's -/
 theorem sig_keys_table : Facts.sigKeys =
-    ["body_sig", "function_input_hash", "function_inter_hash", "fun_dep_*", "dep_*", "arg_context", "arg_*",
-     "ext_dep_*", "ext_variable_*"] := by decide
+    ["arg_*", "arg_context", "body_sig", "dep_*", "ext_dep_*", "ext_variable_*", "fun_dep_*", "function_input_hash",
+     "function_inter_hash"] := by decide
 
 /-- the six classes of keys of a return signature are told apart by their first characters, whatever follows the prefix -/
 theorem sig_key_classes (n : String) :
